@@ -519,6 +519,25 @@ theorem C14_law_with_prob (e : OpExpr) (p : Pop) (st : St) (out : Pop) (st' : St
       ∃ r s1, nextRandom st = .ok (r, s1) ∧ eval e p s1 = .ok (out, st')) :=
   ⟨fun limit h => with_prob_zero e limit p st out st' h, with_prob_one e p st out st'⟩
 
+/-- `x - y` (and `~x = Identity() - x`) works on object identities: exactly the objects `y` returned
+are dropped — an individual with an equal DNA value but another identity stays — and
+`|x - y| = |x| - |{d ∈ x : d is one of y's objects}|`. -/
+theorem C14_law_difference (a b : OpExpr) (p : Pop) (st : St) (out : Pop) (st' : St)
+    (h : eval (.diff a b) p st = .ok (out, st')) :
+    ∃ x y s1, eval b p st = .ok (y, s1) ∧ eval a p s1 = .ok (x, st') ∧
+      out = x.filter (fun d => !hasUid d.uid y) ∧
+      out.length + (x.filter (fun d => hasUid d.uid y)).length = x.length ∧
+      ∀ d ∈ x, (d ∈ out ↔ hasUid d.uid y = false) := difference_by_identity a b p st out st' h
+
+theorem C14_law_inversion (a : OpExpr) : eval (.inversion a) = eval (.diff .identity a) :=
+  inversion_is_difference a
+
+/-- two individuals with the same DNA value: `~First(1)` keeps the second one. -/
+example : ∃ out st', eval (.inversion (.leaf (selFirst (.count 1))))
+    [{ uid := 0, dna := f21Dna, fit := some 1 }, { uid := 1, dna := f21Dna, fit := some 3 }]
+    { oracle := [], nextUid := 2 } = .ok (out, st') ∧ out.map (·.uid) = [1] :=
+  ⟨_, _, rfl, rfl⟩
+
 /-- `x.until_change(1)` is `x`. -/
 theorem C14_law_until_one (e : OpExpr) : eval (.untilChange e 0) = eval e := until_one_attempt e
 
